@@ -188,4 +188,12 @@ func VH_C08_Directions() {
 	}
 	vReach("directions")
 	vAssert(ini.sendCipher.nonce == rsp.recvCipher.nonce && rsp.sendCipher.nonce == ini.recvCipher.nonce, "nonces of a direction diverged")
+	// The two directions never share a key, before or after rotations (they
+	// count nonces independently, so a shared key means a reused key/nonce
+	// pair): a record of one direction is never valid in the other one.
+	vAssert(!vIdealEq(ini.sendCipher.secretKey[:], ini.recvCipher.secretKey[:]), "both directions use the same key")
+	probe := vBytes("probe", 1)
+	a, b := ini.sendCipher, ini.recvCipher // copies: Encrypt advances the nonce
+	b.nonce = a.nonce
+	vAssert(!vIdealEq(a.Encrypt(nil, nil, probe), b.Encrypt(nil, nil, probe)), "equal plaintexts at the same record position give equal ciphertexts in the two directions (key/nonce pair reused)")
 }
